@@ -1,6 +1,6 @@
 (* C13 -- lazy values are faithful views of their source text. Statements only. *)
 From Coq Require Import List NArith Arith.
-From SonicV Require Import Model.SkipAll Model.Skip Model.LazyOwned.
+From SonicV Require Import Model.SkipAll Model.Skip Model.LazyOwned Model.ValueEdges.
 Import ListNotations.
 Local Close Scope N_scope.
 Local Open Scope nat_scope.
@@ -18,3 +18,7 @@ Theorem mutation_hit : forall (A : Type) i (x : A) l, i < length l -> nth_error 
 Proof. exact replace_hit. Qed.
 Theorem push_keeps_members : forall (A : Type) j (x : A) l, j < length l -> nth_error (push A x l) j = nth_error l j.
 Proof. exact push_frame. Qed.
+
+(* a lazy value's raw text is the trimmed input: a well-formed value has no whitespace at its edges *)
+Theorem raw_text_is_trimmed : forall v, Value v -> edge_ok v.
+Proof. exact value_edges. Qed.
